@@ -401,6 +401,13 @@ class SNum(Sym):
     def _bin(self, o, op, swap=False):
         if isinstance(o, SPoison):
             return o
+        if isinstance(o, complex):
+            if o.imag == 0:
+                o = o.real
+            elif op is _OPS['mul'] and self.c is not None and self.c == 0:
+                return 0          # 1j * 0: the imaginary part of a real-valued computation
+            else:
+                raise Abort('complex arithmetic on a symbolic value')
         a, b = (o, self) if swap else (self, o)
         ca = a.c if isinstance(a, SNum) else (_cval(a) if _isconc(a) else None)
         cb = b.c if isinstance(b, SNum) else (_cval(b) if _isconc(b) else None)
@@ -883,23 +890,30 @@ def coefficient_terms(t, cvars):
 
 def abstract_nonlinear(t, cache):
     """over-approximation for deciding identities between linear combinations of the same non-linear atoms:
-    every ITE node and every product of >= 2 non-numeral factors is replaced by a fresh real constant (one per
-    structurally distinct node).  `valid after abstraction` implies `valid`."""
-    key = t.get_id()
-    if key in cache:
-        return cache[key]
-    k = t.decl().kind()
-    if z3.is_const(t) or z3.is_rational_value(t) or z3.is_int_value(t):
-        r = t
-    elif k == z3.Z3_OP_ITE or (k == z3.Z3_OP_MUL and sum(0 if (z3.is_rational_value(c) or z3.is_int_value(c)) else 1 for c in t.children()) >= 2) \
-            or k == z3.Z3_OP_POWER:
-        s = z3.simplify(t)
-        sk = ('atom', s.get_id())
-        if sk not in cache:
-            cache[sk] = z3.Real('atom!%d' % len(cache))
-        r = cache[sk]
-    else:
-        ch = [abstract_nonlinear(c, cache) for c in t.children()]
-        r = t.decl()(*ch)
-    cache[key] = r
-    return r
+    every (outermost) ITE node, power and product of >= 2 non-numeral factors is replaced by a fresh real constant
+    (one per structurally distinct node).  `valid after abstraction` implies `valid`."""
+    pairs = {}
+    seen = set()
+
+    def visit(u):
+        key = u.get_id()
+        if key in seen:
+            return
+        seen.add(key)
+        if z3.is_const(u) or z3.is_rational_value(u) or z3.is_int_value(u):
+            return
+        k = u.decl().kind()
+        nonnum = sum(0 if (z3.is_rational_value(c) or z3.is_int_value(c)) else 1 for c in u.children())
+        if (k == z3.Z3_OP_ITE and not z3.is_bool(u)) or (k == z3.Z3_OP_MUL and nonnum >= 2) or k == z3.Z3_OP_POWER \
+                or (k == z3.Z3_OP_DIV and not (z3.is_rational_value(u.arg(1)) or z3.is_int_value(u.arg(1)))):
+            sk = ('atom', key)
+            if sk not in cache:
+                cache[sk] = z3.Real('atom!%d' % len(cache)) if z3.is_real(u) else z3.Int('atom!%d' % len(cache))
+            pairs[key] = (u, cache[sk])
+            return
+        for c in u.children():
+            visit(c)
+    visit(t)
+    if not pairs:
+        return t
+    return z3.substitute(t, *pairs.values())
